@@ -421,7 +421,7 @@ def _unicode(prog, rep):
 
 def _filter_rule(prog, rep, r5, r6, fc, stripped, site):
     from ..pred import bool_facts
-    from ..idioms import optchar_eq
+    from ..idioms import optchar_eq, optchar_in
     from ..engines.schemas import end_char
     m = models.closure_model(prog, fc, state_types=())
     D = lambda t: describe(t, fc)[:140]
@@ -461,11 +461,11 @@ def _filter_rule(prog, rep, r5, r6, fc, stripped, site):
                  site=fc.span)
         # which char does it reject after?
         for f in facts:
-            oc = optchar_eq(f)
+            oc = optchar_in(f)
             if oc is None or not oc[2]:
                 continue
-            o, code, _ = oc
-            rejects.add(code)
+            o, codes, _ = oc
+            rejects |= codes
             ec = end_char(prog, fc, o)
             ok_src = False
             if ec is not None and ec[0] == "back":
@@ -482,9 +482,13 @@ def _filter_rule(prog, rep, r5, r6, fc, stripped, site):
             continue
         eqs = {}
         for f in facts:
-            oc = optchar_eq(f)
+            oc = optchar_in(f)
             if oc is not None:
-                eqs[oc[1]] = oc[2]
+                for code in oc[1]:
+                    if oc[2] and len(oc[1]) > 1:
+                        eqs.setdefault(code, None)     # one of several: undecided
+                    else:
+                        eqs[code] = oc[2]
         at_end = False
         if cap is not None:
             nfs = {fact_nf(f) for f in facts if f[0][0] == "cmp"}
